@@ -557,6 +557,9 @@ fn run_c13(ctx: &mut Ctx, rng: &mut Rng, thorough: bool) {
 
 /// force a particular mutation kind by re-drawing
 fn mutate_kind(rng: &mut Rng, seed: &[u8], other: &[u8], want: u64) -> (Vec<u8>, &'static str) {
+    if want >= 10 {
+        return mutate(rng, seed, other);
+    }
     let names = [
         "token-insert",
         "token-replace",
@@ -614,6 +617,41 @@ fn generated_seeds(seed: u64, per_kind: usize, max_lit: usize) -> Vec<Vec<u8>> {
     v
 }
 
+static BUCKETS: std::sync::OnceLock<Vec<Vec<usize>>> = std::sync::OnceLock::new();
+
+/// bucket key of a seed: its first two tokens with digits normalised (`* N FETCH`, `* METADATA`, ...)
+/// plus the third token for FETCH / OK responses, so that rare response kinds get the same share of
+/// the mutation budget as frequent ones
+fn bucket_key(b: &[u8]) -> String {
+    let s = String::from_utf8_lossy(&b[..std::cmp::min(b.len(), 48)]).to_uppercase();
+    let toks: Vec<String> = s
+        .split(|c: char| c == ' ' || c == '(' || c == '[')
+        .filter(|t| !t.is_empty())
+        .take(4)
+        .map(|t| if t.chars().all(|c| c.is_ascii_digit()) { "N".to_string() } else { t.trim_end().to_string() })
+        .collect();
+    toks.join(" ")
+}
+
+fn init_buckets(seeds: &[Vec<u8>]) {
+    let mut map: std::collections::BTreeMap<String, Vec<usize>> = std::collections::BTreeMap::new();
+    for (i, s) in seeds.iter().enumerate() {
+        map.entry(bucket_key(s)).or_default().push(i);
+    }
+    let _ = BUCKETS.set(map.into_values().collect());
+}
+
+/// half of the time uniform over response kinds (buckets), otherwise uniform over seeds
+fn pick_seed(rng: &mut Rng, seeds: &[Vec<u8>]) -> Vec<u8> {
+    if rng.bool() {
+        if let Some(b) = BUCKETS.get() {
+            let bucket = rng.pick(b);
+            return seeds[*rng.pick(bucket)].clone();
+        }
+    }
+    rng.pick(seeds).clone()
+}
+
 fn seeds_for(extra: &[Vec<u8>], gen: Vec<Vec<u8>>) -> Vec<Vec<u8>> {
     let mut v: Vec<Vec<u8>> = SEEDS.iter().map(|s| s.to_vec()).collect();
     v.extend(extra.iter().cloned());
@@ -646,7 +684,7 @@ fn run_c01(ctx: &mut Ctx, rng: &mut Rng, seeds: &[Vec<u8>], n: u64, shard: usize
         }
     }
     for _ in 0..n {
-        let seed = rng.pick(seeds).clone();
+        let seed = pick_seed(rng, seeds);
         let other = rng.pick(seeds).clone();
         let (mut m, mut kind) = mutate(rng, &seed, &other);
         let extra = rng.below(3);
@@ -698,7 +736,7 @@ fn run_c02(ctx: &mut Ctx, rng: &mut Rng, seeds: &[Vec<u8>], n_valid: u64, n_mut:
         }
     }
     for _ in 0..n_mut {
-        let seed = rng.pick(seeds).clone();
+        let seed = pick_seed(rng, seeds);
         let other = rng.pick(seeds).clone();
         let (m, kind) = mutate(rng, &seed, &other);
         let x = match rng.below(3) {
@@ -725,13 +763,21 @@ fn run_c09(ctx: &mut Ctx, rng: &mut Rng, seeds: &[Vec<u8>], n: u64, shard: usize
         }
     }
     for _ in 0..n {
-        let seed = rng.pick(seeds).clone();
+        let seed = pick_seed(rng, seeds);
         let other = rng.pick(seeds).clone();
         let mut b = match rng.below(10) {
             0 | 1 => random_line(rng),
-            _ => {
+            2..=5 => {
                 let k = rng.below(4);
                 let (m, _) = mutate_kind(rng, &seed, &other, k);
+                m
+            }
+            _ => {
+                // any mutation, keeping the line terminator so that the frame stays complete
+                let (mut m, _) = mutate(rng, &seed, &other);
+                if !m.ends_with(b"\r\n") {
+                    m.extend_from_slice(b"\r\n");
+                }
                 m
             }
         };
@@ -895,6 +941,7 @@ fn main() {
     let gen = generated_seeds(seed, if thorough { 40 } else { 5 }, if thorough { 65536 } else { 2000 });
     let n_gen = gen.len();
     let seeds = seeds_for(&corpus, gen);
+    init_buckets(&seeds);
     let total = Mutex::new(Log::default());
 
     // the corpus runs first (shard 0 does it), then the generated cases, sharded
@@ -944,7 +991,7 @@ fn main() {
                         run_c02(&mut ctx, &mut rng, seeds, nv / sh, nm / sh, thorough, shard, shards);
                     }
                     "C09" => {
-                        let n = if thorough { 1_000_000 } else { 100_000 };
+                        let n = if thorough { 2_000_000 } else { 300_000 };
                         run_c09(&mut ctx, &mut rng, seeds, n / sh, shard, shards);
                     }
                     "C13" => {
